@@ -469,6 +469,10 @@ func (r *renderer) renderDefs(f *file) {
 			i++
 			continue
 		}
+		if s.AliasOf != nil {
+			f.p("var %s = %s%s\n\n", s.Name, f.q(s.AliasOf.Pkg), s.AliasOf.Name)
+			continue
+		}
 		f.p("var %s = %sNewSet(%s)\n\n", s.Name, f.wire(), r.itemsExpr(f, s.Items))
 	}
 	if p == r.prog.Root && r.prog.ExtraDecl != "" {
